@@ -9,6 +9,16 @@ import drive
 import p_filter as PF
 
 LEAN_TARGETS = ["Verif.Props.C15", "Verif.Props.Ties", "Verif.Props.C13More"]
+SECOND_TIE = {
+    "what": "the recursive-descent parser behind LDAPFilter.from_string (_unpack_filter, _unpack_complex_filter, _unpack_simple_filter, "
+            "_unpack_filter_extensible_header, _unpack_filter_substrings_value, from_string itself) translated statement by statement from the Python AST "
+            "into Lean (harness/py2lean.py -> Generated/FilterGen.lean) and proved equal to the hand-written model of Model/FilterText.lean "
+            "(Props/TiesFilter.lean: same tree, same consumed count, same error offset and length, for all inputs and all sufficient fuel); trusted boundary: "
+            "_ATTRIBUTE_PATTERN.match = validAttr (tied by Props/Ties.lean), the re.sub-based _unpack_filter_value = the model's unescape, str.strip / encode",
+    "translator": "py2lean.py",
+    "targets": ["Verif.Props.TiesFilter"],
+    "validate": "p_filtergen.py",
+}
 LEVEL = "proof"
 ASSUMPTIONS = [
     "text is a str that from_string can encode: Unicode scalar values and the surrogate-escape code points U+DC80..U+DCFF (which stand for the bytes "
